@@ -77,7 +77,20 @@ func (c *Collection) writeWithMeta(key string, body []byte, xattrs []byte, oldCa
 			isJSON:     isJSON,
 			revSeqNo:   revSeqNo,
 		}
-		return c.storeDocument(txn, e)
+		if err = c.storeDocument(txn, e); err != nil {
+			return err
+		}
+		// The caller chose this CAS, so it says nothing about when the document changed. View
+		// indexes are brought up to date by re-mapping the documents whose CAS exceeds
+		// views.lastCas, and only once the collection's lastCas has moved: they would never notice
+		// this write. Invalidate the collection's view indexes and advance its high-water mark
+		// with a fresh timestamp, so that the next non-stale query rebuilds them.
+		_, err = txn.Exec(`UPDATE views SET lastCas=0
+							WHERE designDoc IN (SELECT id FROM designDocs WHERE collection=?1)`, c.id)
+		if err != nil {
+			return err
+		}
+		return c.setLastCas(txn, CAS(hlc.Now()))
 	})
 
 	if err != nil {
